@@ -162,7 +162,7 @@ def exhaustive(ctx: Ctx, depth: int, cases: list[dict], outs: list[dict]) -> Non
                     outs.append(out)
                     nxt.append((ops, steps + [st], r2, ref2))
         frontier = nxt
-    ctx.extra["exhaustive"] = {"capacity": cap, "slots": 9, "value_kinds": 3, "depth": depth,
+    ctx.extra["exhaustive_scope"] = {"capacity": cap, "slots": 9, "value_kinds": 3, "depth": depth,
                                "transitions_executed": transitions, "distinct_states": len(seen)}
 
 
